@@ -5,7 +5,7 @@ ROOT = os.path.dirname(os.path.dirname(os.path.abspath(__file__)))
 
 CLAIMS = {
  "C01": dict(
-  text="Structural necessary conditions of 'shaping is total', decided on all paths of all functions: every recursive SCC has a re-derived termination argument and recursion in loops a shared work budget (R-REC); every writer of Buffer.Info re-sizes Buffer.Pos or is confined to an output-mode bracket that is closed on all paths, and the re-sync takes its length from len(Info) (R-SYNC); the operation/length budgets are initialised from the input length before any reader runs and tested in the lookup loop (R-BUDGET); integer divisors are provably non-zero (R-DIV); every array access indexed by a Coverage index is bounded by a test in its function or by a loader comparison of len(<that field>) with <that coverage>.Len(), matched by field identity, one obligation per call site when the array is a parameter (R-COVIDX, 22 accesses); and the slice accesses of package harfbuzz whose bounds were locally derivable when the set was frozen (132 function/field keys, among them the tests on font-supplied lookup, mark-set and nested-lookup indices) are still derivable (R-IDX, a regression rule). Does not decide cluster accounting, loop termination, or index arithmetic that rests on buffer invariants. (R-NIL) no method is invoked on an interface field of the table structures that a NULL offset leaves nil: the NULL-able fields are found in the parsers (stores control-dependent on `offset != 0`), closed under field copies, and every invoke site whose receiver may be such a field — through parameters to all callers, captured variables, call results — is dominated by a nil test of that field, or the field is replaced by an empty table in a fill function through which every parsed lookup is handed out. (R-FONTIDX) in the shaper an index read directly from a field of a font table is compared with an upper bound on the way to every array access, or is one the loader replaces when out of range; (R-COVIDX/resolved) the lookup sanitizers are dispatched, directly or through a helper, on the subtable as it is after extensions are resolved.",
+  text="Structural necessary conditions of 'shaping is total', decided on all paths of all functions: every recursive SCC has a re-derived termination argument and recursion in loops a shared work budget (R-REC); every writer of Buffer.Info re-sizes Buffer.Pos or is confined to an output-mode bracket that is closed on all paths, and the re-sync takes its length from len(Info) (R-SYNC); the operation/length budgets are initialised from the input length before any reader runs and tested in the lookup loop (R-BUDGET); integer divisors are provably non-zero (R-DIV); every array access indexed by a Coverage index is bounded by a test in its function or by a loader comparison of len(<that field>) with <that coverage>.Len(), matched by field identity, one obligation per call site when the array is a parameter (R-COVIDX, 22 accesses); and the slice accesses of package harfbuzz whose bounds were locally derivable when the set was frozen (132 function/field keys, among them the tests on font-supplied lookup, mark-set and nested-lookup indices) are still derivable (R-IDX, a regression rule). Does not decide cluster accounting, loop termination, or index arithmetic that rests on buffer invariants. (R-NIL) no method is invoked on an interface field of the table structures that a NULL offset leaves nil: the NULL-able fields are found in the parsers (stores control-dependent on `offset != 0`), closed under field copies, and every invoke site whose receiver may be such a field — through parameters to all callers, captured variables, call results — is dominated by a nil test of that field, or the field is replaced by an empty table in a fill function through which every parsed lookup is handed out. (R-FONTIDX) in the shaper an index read directly from a field of a font table is compared with an upper bound on the way to every array access, or is one the loader replaces when out of range; (R-COVIDX/resolved) the lookup sanitizers are dispatched, directly or through a helper, on the subtable as it is after extensions are resolved. (R-BUDGET/grow) every site that makes the buffer longer by an amount the font chooses (a loop emitting one glyph per element of a given slice, a replaceGlyphs with a non-literal list, an append of a computed make to Info) is bounded by Buffer.maxLen.",
   note="VTA call graph over-approximates dynamic calls; stdlib and x/text are not analysed; guards are recognised as SSA comparisons of the counter with a bound",
   technique="static analysis: call-graph SCC inventory + CFG path rules (edge dominance, must-precede/must-follow) on go/ssa + backward value-origin analysis of interface receivers with dominance of nil tests (R-NIL)",
   ref="DESIGN.md §4 C01"),
@@ -20,17 +20,17 @@ CLAIMS = {
   technique="static analysis: CFG edge-dominance and gated reachability on go/ssa (assumed field value, callee return-constant sets)",
   ref="DESIGN.md §4 C03"),
  "C06": dict(
-  text="Two clauses of the segmentation property, decided statically: (history independence) with P-FX, Segmenter.Init writes every field that it or the line/grapheme/word iterators may read, and the rule cursor is a fresh local, so results cannot depend on earlier uses of the object; (one class per rune) the line, grapheme and word class tables are well-formed as unicode.Is requires, pairwise disjoint, and the two pre-filter tables equal the union of their families, for all 0x110000 code points. Agreement of the rule functions with UAX #29/#14 is NOT decided.",
+  text="Two clauses of the segmentation property, decided statically: (history independence) with P-FX, Segmenter.Init writes every field that it or the line/grapheme/word iterators may read, and the rule cursor is a fresh local, so results cannot depend on earlier uses of the object; (one class per rune) the line, grapheme and word class tables are well-formed as unicode.Is requires, pairwise disjoint, and the two pre-filter tables equal the union of their families, for all 0x110000 code points. Agreement of the rule functions with UAX #29/#14 is NOT decided. (R-TABONLY) the three break-class lookups return only entries of their table or the documented default and compare their rune with no constant.",
   note="field-based effects; unicode.Is trusted; the UAX rule tables are not available in the sandbox",
   technique="static analysis: field-effect fixpoint (exposed-read/must-write) on go/ssa + constant evaluation of table literals",
   ref="DESIGN.md §4 C06"),
  "C07": dict(
-  text="Three clauses of the itemization property: (history independence) every field of shaping.Segmenter that Split may read before writing is classified (the pools are read by reset only to drop stale pointers); (frame) no function reachable from Split other than reset assigns Input.Text, Input.Size or Input.FontFeatures; (table preconditions) pairedDelims is strictly increasing and ScriptRanges sorted and disjoint, as the two bisections require. Exact cover, level parity, script uniformity and face resolution are NOT decided. (R-BIDI/par) every caller of bidi.Paragraph.SetString uses the consumed count or cuts the text at the paragraph separators itself, so that the text after a newline gets its own levels.",
+  text="Three clauses of the itemization property: (history independence) every field of shaping.Segmenter that Split may read before writing is classified (the pools are read by reset only to drop stale pointers); (frame) no function reachable from Split other than reset assigns Input.Text, Input.Size or Input.FontFeatures; (table preconditions) pairedDelims is strictly increasing and ScriptRanges sorted and disjoint, as the two bisections require. Exact cover, level parity, script uniformity and face resolution are NOT decided. (R-BIDI/par) every caller of bidi.Paragraph.SetString uses the consumed count or cuts the text at the paragraph separators itself, so that the text after a newline gets its own levels. (R-TAB/parity) the paired delimiters table, consulted by position, has no opening punctuation at an odd index and no closing one at an even index; (R-TAB/scriptlang) the representative language of a script is written in that script according to the language table.",
   note="field-based effects over the VTA call graph; x/text bidi.Paragraph.SetString trusted as a full reset",
   technique="static analysis: field-effect fixpoint + who-may-write check over call-graph reachability + constant evaluation of tables",
   ref="DESIGN.md §4 C07"),
  "C08": dict(
-  text="Two clauses of the visual-order property: (R-OWN) only computeBidiOrdering and swapVisualOrder store Output.VisualIndex in package shaping, and swapVisualOrder's two stores are a transposition of the same two locations (so an ordering that is a permutation stays one); (R-ORDER) in postProcessLine every append to the line is followed on all paths by computeBidiOrdering and every read of VisualIndex is preceded by it. Agreement with rule L2 of UAX #9 for embedding levels is NOT decided: Output carries only the level parity, so the level-2 mis-ordering the property mentions is invisible to these rules. (R-TRIM, R-TRIM/fast) the trimmed run is selected by comparing VisualIndex values, and the line built by the single run shortcut of WrapParagraph is returned only after the trailing whitespace trim unless the trim is disabled.",
+  text="Two clauses of the visual-order property: (R-OWN) only computeBidiOrdering and swapVisualOrder store Output.VisualIndex in package shaping, and swapVisualOrder's two stores are a transposition of the same two locations (so an ordering that is a permutation stays one); (R-ORDER) in postProcessLine every append to the line is followed on all paths by computeBidiOrdering and every read of VisualIndex is preceded by it. Agreement with rule L2 of UAX #9 for embedding levels is NOT decided: Output carries only the level parity, so the level-2 mis-ordering the property mentions is invisible to these rules. (R-TRIM, R-TRIM/fast) the trimmed run is selected by comparing VisualIndex values, and the line built by the single run shortcut of WrapParagraph is returned only after the trailing whitespace trim unless the trim is disabled. (R-STATE) the direction and trim flag the wrapper orders and trims with are not those of a previous paragraph.",
   note="who-may-write by field identity; exchange recognised on SSA address expressions",
   technique="static analysis: who-may-write check + CFG must-follow/must-precede on go/ssa",
   ref="DESIGN.md §4 C08"),
@@ -80,12 +80,12 @@ CLAIMS = {
   technique="static analysis: CFG must-follow, field-effect sets and reachability on go/ssa",
   ref="DESIGN.md §4 C18"),
  "C19": dict(
-  text="Two structural clauses of 'written files read back unchanged': (R-RO) origin tracking from WriteTTF's tables parameter shows that no store, copy/append/Put* destination in any function targets caller memory (an append whose first operand is caller memory counts as a write into its spare capacity); (R-DIR) the directory entry layout of the writer agrees with readOTFEntry field by field — at the offset where the reader assigns Tag/CheckSum/Offset/Length the writer stores a 32-bit value of that role (the table's tag, checksum(table.Content), the running offset, len(Content)), the body copy loop follows the same offset recurrence, and numTables is written where readOTFHeader reads it. Checksum arithmetic and header search fields are not decided.",
+  text="Two structural clauses of 'written files read back unchanged': (R-RO) origin tracking from WriteTTF's tables parameter shows that no store, copy/append/Put* destination in any function targets caller memory (an append whose first operand is caller memory counts as a write into its spare capacity); (R-DIR) the directory entry layout of the writer agrees with readOTFEntry field by field — at the offset where the reader assigns Tag/CheckSum/Offset/Length the writer stores a 32-bit value of that role (the table's tag, checksum(table.Content), the running offset, len(Content)), the body copy loop follows the same offset recurrence, and numTables is written where readOTFHeader reads it. Checksum arithmetic and header search fields are not decided. The running offset is rounded up to a multiple of 4 after each table, by the same arithmetic in the directory and in the body.",
   note="encoding/binary trusted; roles are recognised on SSA values (field of Table, call of checksum on that table's Content, len(Content), phi advanced by len(Content))",
   technique="static analysis: origin tracking (P-ORG) + writer/reader layout extraction on go/ssa",
   ref="DESIGN.md §4 C19"),
  "C20": dict(
-  text="Static, exhaustive evaluation of every generated table literal (P-LIT) against the coherence conditions the lookups rely on (sortedness/disjointness for bisection, family disjointness, pre-filter = union, compose/decompose inverse, mirroring involution, language table order/canonical form/identifier correspondence) plus an SSA-derived bit-effect check of di.Direction setters/getters, R-TABONLY (table-driven lookups return only table values), R-BISECT (bisected tables are sorted by the searched key) and R-LANGID (NewLangID is exact-first, so unique tags imply that every identifier round-trips). Decides internal coherence for all code points; does not decide agreement with the UCD.",
+  text="Static, exhaustive evaluation of every generated table literal (P-LIT) against the coherence conditions the lookups rely on (sortedness/disjointness for bisection, family disjointness, pre-filter = union, compose/decompose inverse, mirroring involution, language table order/canonical form/identifier correspondence) plus an SSA-derived bit-effect check of di.Direction setters/getters, R-TABONLY (table-driven lookups return only table values), R-BISECT (bisected tables are sorted by the searched key) and R-LANGID (NewLangID is exact-first, so unique tags imply that every identifier round-trips). Decides internal coherence for all code points; does not decide agreement with the UCD. (R-TAB/blocks) no two-point entry of a general-category table spans a block whose interior has the same category; (R-TAB/scriptlang) as in C07; the class lookups decide through table membership only.",
   note="trusts unicode.Is, sort.Search and the short bisection loops; tables are evaluated from syntax with go/types constants, nothing is executed",
   technique="static analysis: constant evaluation of table literals (AST + go/types) and SSA bit-effect analysis",
   ref="DESIGN.md §4 C20"),
